@@ -122,3 +122,71 @@ Example C11_include_leading_blanks_example :
   | PErr _ => False
   end.
 Proof. vm_compute. split; reflexivity. Qed.
+
+(** blanks between '#' and the directive name do not matter (repaired defect: "# define N 1" was
+    an unknown directive).  On the function that handles one scanned line: *)
+Theorem C11_directive_blank_after_hash : forall rec fs fname inc p line buf b1 b2 rest ins sc,
+  trim_start b1 = "" -> trim_start b2 = "" -> b2 <> "" -> trim_start rest = rest ->
+  line_body rec fs fname inc p line buf (b1 ++ "#" ++ b2 ++ rest) ins sc
+  = line_body rec fs fname inc p line buf ("#" ++ rest) ins sc.
+Proof. exact directive_blank_after_hash. Qed.
+
+(** the normalisation itself: at least one blank after the '#' / none / no '#' at all *)
+Theorem C11_hash_blanks_removes : forall b1 b2 rest,
+  trim_start b1 = "" -> trim_start b2 = "" -> b2 <> "" -> trim_start rest = rest ->
+  hash_blanks (b1 ++ "#" ++ b2 ++ rest) = "#" ++ rest.
+Proof. exact hash_blanks_removes. Qed.
+
+Theorem C11_hash_blanks_keeps : forall b1 rest,
+  trim_start b1 = "" -> trim_start rest = rest ->
+  hash_blanks (b1 ++ "#" ++ rest) = b1 ++ "#" ++ rest.
+Proof. exact hash_blanks_keeps. Qed.
+
+Theorem C11_hash_blanks_other : forall out,
+  starts_with "#" (trim_start out) = false -> hash_blanks out = out.
+Proof. exact hash_blanks_other. Qed.
+
+Theorem C11_line_body_hash_blanks : forall rec fs fname inc p line buf out ins sc,
+  line_body rec fs fname inc p line buf out ins sc
+  = line_body rec fs fname inc p line buf (hash_blanks out) ins sc.
+Proof. exact line_body_hash_blanks. Qed.
+
+Example C11_define_blank_after_hash_example :
+  run_cpp [] "m.c" [] ["# define N 1" ++ nl; "N" ++ nl]
+  = run_cpp [] "m.c" [] ["#define N 1" ++ nl; "N" ++ nl]
+  /\ match run_cpp [] "m.c" [] ["# define N 1" ++ nl; "N" ++ nl] with
+     | POk p => p_out p = "1" ++ nl
+     | PErr _ => False
+     end.
+Proof. vm_compute. split; reflexivity. Qed.
+
+(** the name of a directive dispatched after macro replacement is '#' and the letters that
+    follow it; the argument is the rest (repaired defect: "#if!FOO" was the unknown directive
+    "#if!FOO") *)
+Theorem C11_directive_name_arg_letters : forall h w rest,
+  take_alpha w = (w, "") -> fst (take_alpha rest) = "" ->
+  contains "//" (String h (w ++ rest)) = false ->
+  directive_name_arg (String h (w ++ rest))
+  = (String h w, if String.eqb (trim rest) "" then None else Some (trim rest)).
+Proof. exact directive_name_arg_letters. Qed.
+
+Example C11_directive_name_arg_examples :
+  directive_name_arg "#if!FOO" = ("#if", Some "!FOO")
+  /\ directive_name_arg "#if(A) // c" = ("#if", Some "(A)")
+  /\ directive_name_arg "#include""f.h""" = ("#include", Some """f.h""").
+Proof. vm_compute. repeat split. Qed.
+
+(** an #include line keeps its quotes whatever white space surrounds the '#' *)
+Theorem C11_include_line_not_scanned_gen : forall asm l st,
+  sc_in_comment st = false ->
+  is_include_line l = true ->
+  contains "//" l = false -> contains "/*" l = false ->
+  scan_line asm l st = ScanOk l true st.
+Proof. exact include_line_not_scanned_gen. Qed.
+
+Example C11_include_blank_after_hash_example :
+  match run_cpp [("f.h", ["int x;" ++ nl])] "m.c" [] ["  #  include ""f.h""" ++ nl; "int y;" ++ nl] with
+  | POk p => p_out p = "int x;" ++ nl ++ "int y;" ++ nl /\ c_scan (p_ctx p) = mkScan false 0 []
+  | PErr _ => False
+  end.
+Proof. vm_compute. split; reflexivity. Qed.
